@@ -38,6 +38,10 @@ RetAfterStoreMiss(prog, fin) ==
 (* ret with a load or store among the last 310 executed instructions.                  *)
 RetDropsInflight(prog, fin) ==
   fin.status = "ret" /\ \E k \in 1 .. N(fin) : N(fin) - k <= 310 /\ (IsLoadAt(prog, fin, k) \/ IsStoreAt(prog, fin, k))
+(* on MVP-7.0 .. 8 the stores still in flight at ret are completed by the final drain   *)
+(* loop of Run; only the loads (whose register write-back is dropped) are affected      *)
+RetDropsInflightLoad(prog, fin) ==
+  fin.status = "ret" /\ \E k \in 1 .. N(fin) : N(fin) - k <= 310 /\ IsLoadAt(prog, fin, k)
 
 (* F03a (MVP-6.0, >= 2 units): a pipeline flush (taken branch or jump) resets every    *)
 (* execute unit, including those running instructions OLDER than the branch.  Masks:   *)
@@ -121,6 +125,7 @@ ShadowOfSlowBranch(prog, fin) ==
 Tags(prog, fin) ==
   (IF RetAfterStoreMiss(prog, fin) THEN {"ret_after_store_miss"} ELSE {})
   \cup (IF RetDropsInflight(prog, fin) THEN {"ret_drops_inflight"} ELSE {})
+  \cup (IF RetDropsInflightLoad(prog, fin) THEN {"ret_drops_inflight_load"} ELSE {})
   \cup (IF FlushDropsOlder(prog, fin) THEN {"flush_drops_older"} ELSE {})
   \cup (IF StoreMissThenLoad(prog, fin) THEN {"store_miss_then_load"} ELSE {})
   \cup (IF WawRenamed(prog, fin) THEN {"waw_renamed"} ELSE {})
